@@ -121,7 +121,7 @@ Proof. revert i; induction l; intros [|i] H; cbn in *; try lia; auto. apply IHl.
 Lemma nth_error_upd_other {A} i j (v : A) l : i <> j -> nth_error (upd i v l) j = nth_error l j.
 Proof. revert i j; induction l; intros [|i] [|j] H; cbn; auto; try congruence. Qed.
 
-Lemma read_sparse_ok check n ts : forall fuel arr,
+Lemma read_sparse_ok check n ts : (Z.of_nat n <= INT_MAX)%Z -> forall fuel arr,
   Forall (term_ok (d_real d) (d_ctype d)) ts ->
   NoDup (map t_idx ts) -> Forall (fun t => (t_idx t <= n)%nat) ts ->
   length arr = S n -> Forall (fun t => nth_error arr (t_idx t) = Some None) ts ->
@@ -130,14 +130,14 @@ Lemma read_sparse_ok check n ts : forall fuel arr,
               (concat (map sparse_tokens ts)) arr
   = Some (fold_left set_term ts arr).
 Proof.
-  induction ts as [|t ts IH]; intros fuel arr Hok Hnd Hle Hlen Hfree Hfuel.
+  intro Hn. induction ts as [|t ts IH]; intros fuel arr Hok Hnd Hle Hlen Hfree Hfuel.
   - destruct fuel; reflexivity.
   - inversion Hok as [|? ? Ht Hts]; subst. inversion Hnd as [|? ? Hnin Hnd']; subst.
     inversion Hle as [|? ? Hi Hle']; subst. inversion Hfree as [|? ? Hf Hfree']; subst.
     destruct fuel as [|fuel]; [cbn in Hfuel; lia|].
     cbn [map concat sparse_tokens app read_sparse].
     destruct (nat_token_facts (t_idx t)) as (A & B & C).
-    rewrite scan_int_digits, C, nat_N_Z by auto.
+    rewrite scan_int_digits, C, nat_N_Z by (auto; rewrite C, nat_N_Z; lia).
     destruct ((Z.of_nat (t_idx t) <? 0)%Z || (Z.of_nat n <? Z.of_nat (t_idx t))%Z) eqn:E; [lia|].
     rewrite Nat2Z.id, Hf, read_term_ok by exact Ht.
     apply IH; auto.
@@ -212,7 +212,7 @@ Proof. unfold fp_type. destruct (d_ctype d), (d_real d); reflexivity. Qed.
 
 (* the sparse loop of the monomial and Chebyshev readers on the rendered index/value tokens *)
 Lemma sparse_array_ok d check :
-  parts_readable d -> parts_tokens d ->
+  (Z.of_nat (d_degree d) <= INT_MAX)%Z -> parts_readable d -> parts_tokens d ->
   Forall (term_ok (d_real d) (d_ctype d)) (d_terms d) ->
   NoDup (map t_idx (d_terms d)) -> Forall (fun t => (t_idx t <= d_degree d)%nat) (d_terms d) ->
   read_sparse (length (concat (map (sparse_tokens d) (d_terms d)))) (read_cplx (fp_type d) true (negb (d_real d)))
@@ -221,8 +221,8 @@ Lemma sparse_array_ok d check :
                         | Some t => Some (term_val (d_real d) t) | None => None end)
               (seq 0 (S (d_degree d)))).
 Proof.
-  intros Hread Htoks Hterms Hnd Hle.
-  rewrite (read_sparse_ok d Hread check (d_degree d)); auto.
+  intros Hdi Hread Htoks Hterms Hnd Hle.
+  rewrite (read_sparse_ok d Hread check (d_degree d) _ Hdi); auto.
   - f_equal. set (arr := fold_left (set_term d) (d_terms d) (repeat None (S (d_degree d)))).
     assert (Hlen : length arr = S (d_degree d)) by (unfold arr; rewrite fold_set_length, repeat_length; reflexivity).
     rewrite <- Hlen. apply list_from_nth. intros i Hi. unfold arr.
@@ -254,7 +254,8 @@ Theorem read_monomial_ok d :
   wf d -> d_kind d = KMonomial -> parts_readable d -> parts_tokens d ->
   read_monomial (target_settings d) (coeff_tokens d) = Poly (denote d).
 Proof.
-  intros (Hdeg & Hterms & _ & Hk & _) Hkind Hread Htoks.
+  intros (Hdeg & Hterms & _ & Hk & _ & Hdr & _) Hkind Hread Htoks.
+  assert (Hdi : (Z.of_nat (d_degree d) <= INT_MAX)%Z) by (unfold degree_in_range in Hdr; lia).
   rewrite Hkind in Hk. destruct Hk as [Hb Hk].
   unfold read_monomial, target_settings, coeff_tokens, denote. rewrite Hkind.
   cbn [s_n s_struct s_density s_repr s_prec]. rewrite Nat2Z.id, rd_target.
@@ -275,7 +276,8 @@ Theorem read_chebyshev_ok d :
   wf d -> d_kind d = KChebyshev -> parts_readable d -> parts_tokens d ->
   read_chebyshev (target_settings d) (coeff_tokens d) = Poly (denote d).
 Proof.
-  intros (Hdeg & Hterms & _ & Hk & _) Hkind Hread Htoks.
+  intros (Hdeg & Hterms & _ & Hk & _ & Hdr & _) Hkind Hread Htoks.
+  assert (Hdi : (Z.of_nat (d_degree d) <= INT_MAX)%Z) by (unfold degree_in_range in Hdr; lia).
   rewrite Hkind in Hk. destruct Hk as [Hb Hk].
   unfold read_chebyshev, target_settings, coeff_tokens, denote. rewrite Hkind.
   cbn [s_n s_struct s_density s_repr s_prec]. rewrite Nat2Z.id, rd_target.
@@ -437,7 +439,8 @@ Qed.
 
 (* every 3.x file: from the text to the coefficient reader of its kind, with the settings of d *)
 Theorem parse_render_v3 st pi d :
-  (1 <= d_degree d)%nat -> d_legacy d = false -> Forall tok_ok (coeff_tokens d) ->
+  (1 <= d_degree d)%nat -> degree_in_range (Z.of_nat (d_degree d)) -> prec_bounded d ->
+  d_legacy d = false -> Forall tok_ok (coeff_tokens d) ->
   parse (render st pi d) =
   match d_kind d with
   | KSecular => read_secular (target_settings d) (coeff_tokens d)
@@ -445,7 +448,7 @@ Theorem parse_render_v3 st pi d :
   | KMonomial => read_monomial (target_settings d) (coeff_tokens d)
   end.
 Proof.
-  intros Hdeg Hleg Htoks.
+  intros Hdeg Hdr Hpb Hleg Htoks.
   pose proof (options_good st d) as Hgood.
   assert (Hgoodp : Forall opt_good (permute pi (options_of st d))).
   { eapply Permutation_Forall; [|exact Hgood]. symmetry. apply permute_perm. }
@@ -505,7 +508,7 @@ Theorem parse_render_3x st pi d :
   parse (render st pi d) = Poly (denote d).
 Proof.
   intros Hwf Hleg Hread Htoks.
-  rewrite parse_render_v3; [|apply Hwf|exact Hleg|apply coeff_tokens_ok; auto].
+  rewrite parse_render_v3; [|apply Hwf|apply Hwf|apply Hwf|exact Hleg|apply coeff_tokens_ok; auto].
   destruct (d_kind d) eqn:K.
   - apply read_monomial_ok; auto.
   - apply read_secular_ok; auto.
